@@ -203,7 +203,7 @@ PROPS = {
         trusted_base=["pkg/process/process.go, exithook.go transcribed by hand into theories/Process/Process.v", COMMON_MODEL],
     ),
     "C05": dict(
-        level_text="Coq theorems about process-local stores (pkg/process/local.go) and the per-process endpoint maps of ports, modelled at LOCK granularity (every Lock/RLock, critical section, Unlock and call of user code is one step of a thread; a history is any interleaving of any number of threads calling Store / Load / Delete / LoadOrStore / AddStoreHook / RemoveStoreHook / Keys / Close / port Open / port Close / AddExitHook / Exit): no reachable state is a deadlock (unless all threads have returned some thread can step); locks exclude; the initialiser of a lazy cell runs at most once and a process sees at most one run more than its entry was deleted; in every state where all threads have returned a terminated process has no value, lazy cell, waiter list or port endpoint left. The pinned Store (exit hook registered with the store's lock held) is kept in the model with the 3-step wedge as a theorem. Tied to the code by driving a real Local[int], real ports and processes from 2-3 worker goroutines that are held inside every user callback, so that other workers' operations and Exit land between any two critical sections; after each step worker states (returned / held / waiting for a mutex, read off the goroutine dump), map sizes, running processes and the workers' logs are compared with the model. PARTIAL: tracer tables, the debug agent and goroutines are not modelled; they are measured: workloads on a real workflow (with and without the agent, requests abandoned at random points) followed by the exit of every process must leave every port map, both tracers, the agent's process and frame lists empty and the engine's goroutine count back at its starting value within 3 s. Also proved: the tracer of a node holds nothing (no queue, slot or link) once every request it read is answered and no written packet is outstanding, for every disciplined call sequence (C02).",
+        level_text="Coq theorems about process-local stores (pkg/process/local.go) and the per-process endpoint maps of ports, modelled at LOCK granularity (every Lock/RLock, critical section, Unlock and call of user code is one step of a thread; a history is any interleaving of any number of threads calling Store / Load / Delete / LoadOrStore / AddStoreHook / RemoveStoreHook / Keys / Close / port Open / port Close / AddExitHook / Exit): no reachable state is a deadlock (unless all threads have returned some thread can step); locks exclude; the initialiser of a lazy cell runs at most once and a process sees at most one run more than its entry was deleted; in every state where all threads have returned a terminated process has no value, lazy cell, waiter list or port endpoint left. The pinned Store (exit hook registered with the store's lock held) is kept in the model with the 3-step wedge as a theorem. Tied to the code by driving a real Local[int], real ports and processes from 2-3 worker goroutines that are held inside every user callback, so that other workers' operations and Exit land between any two critical sections; after each step worker states (returned / held / waiting for a mutex, read off the goroutine dump), map sizes, running processes and the workers' logs are compared with the model. PARTIAL: tracer tables, the debug agent and goroutines are not modelled; they are measured: workloads on a real workflow (with and without the agent, requests abandoned at random points) followed by the exit of every process must leave every port map, both tracers, the agent's process and frame lists empty and the engine's goroutine count back at its starting value within 3 s. Also proved: the tracer of a node holds nothing (no queue, slot or link) once every request it read is answered and no written packet is outstanding, for every disciplined call sequence (C02). And the debug agent across processes (Runtime/AgentProc.v): for every sequence of accepts, packet-hook firings and exits of any number of processes in any order - firings after the exit (drop notices of a closing reader) and accepts after the exit included - the agent lists no terminated process and holds no frames entry for one; the unguarded hooks of the pinned tree are refuted (they re-create the entry: fix b2cab63); that model is compared with a real Agent in C19's correspondence run.",
         level_note="Partial as stated. Trusted: Coq kernel + vm_compute; hand transcription of local.go, InPort.Open/Close, OutPort.Open/Close, Process.Exit/AddExitHook (flip and hook list only) into theories/Process/Local.v; critical sections are atomic steps between Lock and Unlock (the lock discipline itself is what the no-deadlock and exclusion theorems are about); user code is assumed to return and not to call back into the same store. The harness holds goroutines only inside user code, so finer interleavings are covered by the theorems, not by the correspondence.",
         technique="Coq invariant proofs over all interleavings at lock granularity (well-formed continuations => no deadlock; lock exclusion; single-flight counting; cleanup-coverage invariant => no residue) + vm_compute correspondence under forced interleavings + direct residue / goroutine oracle on real workflows",
         quick_n=250, thorough_n=1200, shard=50, mismatch_is_failure=True,
@@ -211,7 +211,7 @@ PROPS = {
         trusted_base=["pkg/process/local.go, pkg/port/inport.go (Open, Close), pkg/port/outport.go (Open, Close), pkg/process/process.go (Exit, AddExitHook) transcribed by hand into theories/Process/Local.v", COMMON_MODEL, "verif hooks: VerifLen on Local, InPort, OutPort, Tracer; VerifTracer on the node kinds"],
     ),
     "C19": dict(
-        level_text="Coq theorems about the agent's frame bookkeeping as a function of the sequence of packet-hook firings of a process (any number of ports, any interleaving): the frames held for a port are, in order, the k-th packet its inbound hook saw paired with the k-th packet its outbound hook saw, and firings on other ports never touch them - so with endpoints answering in request order (C01/C02) each complete frame pairs a packet that entered a port with the packet that answered it on that port; the pinned matching rule is refuted by a four-firing witness. About breakpoints (thread machine of OnFrame / Next / Done / Close): once a breakpoint is closed, a packet paused in OnFrame steps without a partner and leaves in two steps; done never reopens. PARTIAL: transparency (no response changes with the agent attached) and release by RemoveBreakpoint / Debugger.Close are differential measurements: the node-level workflows and schedules of C02 run from one seed without the agent, with the agent and no breakpoint, and with agent + debugger (random breakpoints, Pause / Step / Remove while packets are paused, then all removed or the debugger closed); every run must give every request its reference answer within the deadline; the hook firings recorded by the harness's own hooks and Agent.Frames are compared with the model per port.",
+        level_text="Coq theorems about the agent's frame bookkeeping as a function of the sequence of packet-hook firings of a process (any number of ports, any interleaving): the frames held for a port are, in order, the k-th packet its inbound hook saw paired with the k-th packet its outbound hook saw, and firings on other ports never touch them - so with endpoints answering in request order (C01/C02) each complete frame pairs a packet that entered a port with the packet that answered it on that port; the pinned matching rule is refuted by a four-firing witness. About breakpoints (thread machine of OnFrame / Next / Done / Close): once a breakpoint is closed, a packet paused in OnFrame steps without a partner and leaves in two steps; done never reopens. PARTIAL: transparency (no response changes with the agent attached) and release by RemoveBreakpoint / Debugger.Close are differential measurements: the node-level workflows and schedules of C02 run from one seed without the agent, with the agent and no breakpoint, and with agent + debugger (random breakpoints, Pause / Step / Remove while packets are paused, then all removed or the debugger closed); every run must give every request its reference answer within the deadline; the hook firings recorded by the harness's own hooks and Agent.Frames are compared with the model per port. ACROSS PROCESSES: whether the agent lists a process and which frames it holds for it depend on that process's own accepts, firings and exit only (theorem); a real Agent driven by 2-3 processes that open a port of a loaded symbol, send and answer requests and exit with requests unanswered is compared with the model after every operation (process listed? frames held?).",
         level_note="Partial as stated. Trusted: Coq kernel + vm_compute; hand transcription of agent.go (hooks) and breakpoint.go; packet hooks are observers in the model by construction; Debugger (Pause/Step plumbing) is exercised, not modelled. Liveness after close is a deadline on the implementation.",
         technique="Coq proof (frames of a port = zip of its inbound and outbound hook sequences, by induction over firings; locality; refutation of the pinned rule; breakpoint release lemmas) + vm_compute correspondence of Agent.Frames + differential runs with / without agent and debugger against the C02 reference answers",
         quick_n=60, thorough_n=1200, shard=100, mismatch_is_failure=True,
